@@ -37,20 +37,26 @@ void panic_set_output_buffer(const char *buffer) {
 
 void panic(const char *filename, int line, const char *fmt, ...) {
     va_list args;
-    char buffer[1000];
+    const char *colour_on = panic_use_colours?MAGENTA:"";
+    const char *colour_off = panic_use_colours?RESET:"";
 
     va_start(args, fmt);
-    sprintf(buffer, "%sCGREEN EXCEPTION%s: <%s:%d>",
-            panic_use_colours?MAGENTA:"",
-            panic_use_colours?RESET:"",
-            filename, line);
-    vsprintf(&buffer[strlen(buffer)], fmt, args);
-    va_end(args);
+    if (panic_message_buffer != NULL) {
+        char buffer[1000];
 
-    if (panic_message_buffer != NULL)
+        snprintf(buffer, sizeof(buffer), "%sCGREEN EXCEPTION%s: <%s:%d>",
+                 colour_on, colour_off, filename, line);
+        vsnprintf(&buffer[strlen(buffer)], sizeof(buffer) - strlen(buffer), fmt, args);
         strcpy(panic_message_buffer, buffer);
-    else
-        fprintf(stderr, "%s\n", buffer);
+    } else {
+        /* Straight to stderr: the message may be of any length (it can name a
+           file with a long path, even twice) and must not be cut or overflow */
+        fprintf(stderr, "%sCGREEN EXCEPTION%s: <%s:%d>",
+                colour_on, colour_off, filename, line);
+        vfprintf(stderr, fmt, args);
+        fprintf(stderr, "\n");
+    }
+    va_end(args);
 }
 
 #ifdef CGREEN_VERIF
